@@ -51,7 +51,10 @@ class ForeverBreakWriteHandler(AbstractWriteHandler):
         # The vertices build_loops makes up have no label. A real operation must be a Jump: any other jumping
         # operation (eg. a case outside of a switch we recognized) would silently lose its condition.
         assert op.label is None or op.root.op_code.name == OP_JUMP, f"A {op.root.op_code.name} can not be written as break_loop."
-        self.decompiler.source_map_add_opcode(self.start_vertex["op"].offset)
+        if op.label is not None:
+            # (A vertex that build_loops made up carries the offset of the operation before it. That operation has its
+            # own statement and its own entry.)
+            self.decompiler.source_map_add_opcode(op.offset)
         self.decompiler.write_stmnt("break_loop;")
         exits = self.start_vertex.out_edges()
         if len(exits) == 1:
